@@ -44,6 +44,8 @@ func IO(kind, path string, off int64, n int) (IOAction, *Sim) {
 	if s == nil {
 		return IOAction{}, nil
 	}
+	raceOff()
+	defer raceOn()
 	Yield(-5)
 	t := s.self()
 	node := 0
@@ -108,6 +110,8 @@ func NodeLocal(name string, mk func() interface{}) interface{} {
 var passThroughLocals = map[nlKey]interface{}{}
 
 func NodeLocalFor(node int, name string, mk func() interface{}) interface{} {
+	raceOff()
+	defer raceOn()
 	s := cur.Load()
 	k := nlKey{node, name}
 	if s == nil {
@@ -137,6 +141,8 @@ func IOManaged(kind, path string, off int64, n int) (IOAction, *Sim) {
 	if s == nil {
 		return IOAction{}, nil
 	}
+	raceOff()
+	defer raceOn()
 	t := s.self()
 	if t == nil || s.holder() == nil {
 		return IOAction{}, nil
